@@ -16,7 +16,7 @@ Import ListNotations.
 Local Open Scope Z_scope.
 
 Section Limits.
-Context (db : database).
+Context (db : database) (v : variant).
 
 Definition eof_step (ns : Z) (ii : bool) (ns1 : Z) (ii1 : bool) (spf0 spf1 : Z) : Z * bool :=
   if ii1 then (ns, ii)
@@ -32,7 +32,8 @@ Fixpoint get_eof (f : field) : Z * bool :=
   | Phase g sh =>
       let '(ns, ii) := get_eof g in
       let ns' := if ii then ns else ns - sh in
-      (if ns' <? 0 then 0 else ns', ii)
+      (* clamped here, or (C16-1) only in gd_eof64 *)
+      (if v_clamp v then ns' else if ns' <? 0 then 0 else ns', ii)
   | Bin _ g h | Mplex g h _ _ =>
       let '(ns, ii) := get_eof g in
       let '(ns1, ii1) := get_eof h in
@@ -47,13 +48,13 @@ Fixpoint get_eof (f : field) : Z * bool :=
 
 (* gd_eof64: None = GD_E_BAD_FIELD_TYPE (INDEX has no end-of-field) *)
 Definition impl_eof (f : field) : option Z :=
-  let '(ns, ii) := get_eof f in if ii then None else Some ns.
+  let '(ns, ii) := get_eof f in if ii then None else Some (if v_clamp v then Z.max 0 ns else ns).
 
 Definition bof_step (b : Z * Z * Z) (b1 : Z * Z * Z) : Z * Z * Z :=
   let '(bof, spf0, ds) := b in
   let '(bof1, spf1, ds1) := b1 in
   if (bof <? bof1) || ((bof1 =? bof) && (ds * spf1 <? ds1 * spf0))
-  then (bof1, spf0, ds1 * spf0 / spf1)
+  then (bof1, spf0, if v_bofceil v then cdiv (ds1 * spf0) spf1 else ds1 * spf0 / spf1)
   else (bof, spf0, ds).
 
 Fixpoint get_bof (f : field) : Z * Z * Z :=
@@ -66,13 +67,14 @@ Fixpoint get_bof (f : field) : Z * Z * Z :=
       let ds' := ds - sh in
       let bof' := bof + ds' / spf0 in
       let ds'' := ds' mod spf0 in
-      if bof' <? 0 then (0, spf0, 0) else (bof', spf0, ds'')
+      if v_clamp v then (bof', spf0, ds'') else if bof' <? 0 then (0, spf0, 0) else (bof', spf0, ds'')
   | Bin _ g h | Mplex g h _ _ => bof_step (get_bof g) (get_bof h)
   | Tri _ g h l => bof_step (bof_step (get_bof g) (get_bof h)) (get_bof l)
   end.
 
 Definition impl_bof (f : field) : Z :=
-  let '(bof, spf0, ds) := get_bof f in bof * spf0 + ds.
+  let '(bof, spf0, ds) := get_bof f in
+  if v_clamp v then Z.max 0 (bof * spf0 + ds) else bof * spf0 + ds.
 
 (* gd_nframes64 with reference field RAW id *)
 Definition impl_nframes (id : N) : Z :=
